@@ -124,6 +124,9 @@ pub struct Gen<'a, 's> {
     /// number of definitions available for reference at the moment (those with index > current)
     pub avail_from: usize,
     pub spec_names: Vec<(String, bool)>, // (name, has plain command definition => closed for every shell)
+    /// word-safe definitions whose body begins or ends with a literal: inside a word a reference to one of
+    /// them counts as a literal (two literals are never adjacent in a word, also after expansion)
+    pub edged: std::collections::BTreeSet<String>,
 }
 
 pub fn make_vocab(s: &mut Src, p: &Profile) -> Vocab {
@@ -360,11 +363,34 @@ impl<'a, 's> Gen<'a, 's> {
         }
         while pieces.len() < n {
             let last = pieces.len() + 1 == n;
-            let prev_lit = matches!(pieces.last(), Some(E::Lit { .. }));
+            let prev_lit = pieces.last().map(|p| self.lit_like(p)).unwrap_or(false);
             let p = self.piece(depth, last, prev_lit);
             pieces.push(p);
         }
         E::Word(pieces)
+    }
+
+    /// a literal, or a reference to a definition that begins or ends with one
+    pub fn lit_like(&self, e: &E) -> bool {
+        match e {
+            E::Lit { .. } => true,
+            E::Nt(n) => self.edged.contains(n),
+            _ => false,
+        }
+    }
+
+    fn defined_ref_piece(&mut self, no_lit: bool) -> Option<E> {
+        let cands: Vec<String> = self
+            .defs
+            .iter()
+            .enumerate()
+            .filter(|(i, (n, ws))| *i >= self.avail_from && *ws && !(no_lit && self.edged.contains(n)))
+            .map(|(_, (n, _))| n.clone())
+            .collect();
+        if cands.is_empty() {
+            return None;
+        }
+        Some(E::Nt(self.s.pick(&cands).clone()))
     }
 
     /// a piece of a word.  `open_ok`: may contain an any-word placeholder (only as last piece);
@@ -393,7 +419,7 @@ impl<'a, 's> Gen<'a, 's> {
                     let only = v.pop().unwrap();
                     // a bare literal after a literal, or a word directly nested as a piece, would put two
                     // literals next to each other in one sequence: keep them apart
-                    if (no_lit && matches!(only, E::Lit { .. })) || matches!(only, E::Word(_)) {
+                    if (no_lit && self.lit_like(&only)) || matches!(only, E::Word(_)) {
                         return E::Opt(Box::new(only));
                     }
                     return only;
@@ -409,7 +435,7 @@ impl<'a, 's> Gen<'a, 's> {
                 E::Many(Box::new(c))
             }
             4 => self.cmd(),
-            5 => self.defined_ref(true).unwrap_or_else(|| self.cmd()),
+            5 => self.defined_ref_piece(no_lit).unwrap_or_else(|| self.cmd()),
             6 => {
                 if self.s.chance(1, 3) {
                     self.spec_ref(false).unwrap_or_else(|| self.undefined())
@@ -456,6 +482,7 @@ impl<'a, 's> Gen<'a, 's> {
                 let b = match inner {
                     // keep bare literals (and words, whose ends may be literals) apart from the literal `a`
                     E::Lit { .. } | E::Word(_) => E::Opt(Box::new(inner)),
+                    E::Nt(ref n) if self.edged.contains(n) => E::Opt(Box::new(inner)),
                     other => other,
                 };
                 if self.s.bool() {
@@ -480,7 +507,7 @@ const SHELLS: [&str; 4] = ["bash", "fish", "zsh", "pwsh"];
 pub fn gen_clean(s: &mut Src, p: &Profile) -> (G, Vocab) {
     let v = make_vocab(s, p);
     let ndefs = s.below(p.max_defs + 1);
-    let mut g = Gen { s, p: p.clone(), v, budget: p.max_nodes, defs: vec![], avail_from: 0, spec_names: vec![] };
+    let mut g = Gen { s, p: p.clone(), v, budget: p.max_nodes, defs: vec![], avail_from: 0, spec_names: vec![], edged: Default::default() };
     // names and kinds first
     for i in 0..ndefs {
         let ws = g.s.chance(3, 8);
@@ -517,6 +544,9 @@ pub fn gen_clean(s: &mut Src, p: &Profile) -> (G, Vocab) {
         let depth = g.s.range(1, p.max_depth.min(3));
         g.budget = g.budget.max(6);
         let body = if ws { g.closed_group(depth) } else { g.top(depth) };
+        if ws && (g.lit_like(&body) || matches!(body, E::Word(_))) {
+            g.edged.insert(name.clone());
+        }
         def_stmts.push(Stmt::Def { name, shell: None, e: body });
     }
     g.avail_from = 0;
